@@ -326,6 +326,7 @@ func (r *runner) crashRecord(run int, first, stderr string, slot int) sim.Record
 		Result: sim.Result{Evals: 1, Sig: fmt.Sprintf("crash-%d", run),
 			Violation: &sim.Violation{Class: class, Msg: "the process was killed by the Go runtime during this run: " + first, Detail: head(stderr, 6000)}}}
 	rec.Regenerate = true
+	rec.Tier = r.tier
 	return rec
 }
 
@@ -570,7 +571,7 @@ func Check(tier, id string) int {
 	wall := time.Since(t0).Seconds()
 	writeEvidence(p, tier, seed, a, wall, buildS, len(a.violations)-knownCount, knownCount, detPairs, violSamples)
 
-	if exit == 0 && tier == "thorough" {
+	if exit == 0 && tier == "thorough" && os.Getenv("VERIF_SCEN") == "" {
 		for _, pr := range p.RequiredProbes {
 			if a.counts[pr] == 0 {
 				Trouble("probe %q was never hit in the thorough tier: the workload or fault mix must change", pr)
